@@ -110,7 +110,7 @@ def streams(ctx, res):
     # measured on seeded change C18-2 (ticket/epoch split at 2^24): one burst at a 2^24 boundary detects it with
     # probability 0.45-0.78 (T=4..16, R=10..150; 5 processes x 8 bursts each) => 7 bursts: miss probability < 0.55^7 = 0.015
     bseed = ctx["seed"] * 1000 + 18
-    n24 = 24 if thorough else 7
+    n24 = int(os.environ.get("VERIF_C18_N24", "0")) or (24 if thorough else 7)
     bjobs = [("conc18n", "blackbox", {"VERIF_THREADS": "8", "VERIF_REQS": "16", "VERIF_BOUNDARY": "8:6,16:6,24:%d" % n24}),
              ("conc18n", "blackbox-T4", {"VERIF_THREADS": "4", "VERIF_REQS": "40", "VERIF_BOUNDARY": "8:4,16:4" + (",24:12" if thorough else "")}),
              ("conc18n", "blackbox-T16", {"VERIF_THREADS": "16", "VERIF_REQS": "10", "VERIF_BOUNDARY": "8:4,16:4" + (",24:12" if thorough else "")}),
@@ -155,8 +155,31 @@ import sys as _sys  # noqa: E402
 _sys.path.insert(0, os.path.dirname(os.path.abspath(__file__)))
 import _prng_common as _pc  # noqa: E402
 
+def search(ctx, res, problems):
+    """A proof obligation, a translator or the tie broke without a failing input (the schedule-dependent streams are
+    probabilistic: one quick run misses seeded change C18-2 about once in five on a loaded machine): repeat the streams
+    with fresh seeds and three times as many bursts at the 2^24 carry, up to three times."""
+    found = []
+    old = os.environ.get("VERIF_C18_N24")
+    os.environ["VERIF_C18_N24"] = "21"
+    try:
+        for k in range(3):
+            c2 = dict(ctx, seed=ctx["seed"] * 100 + 61 + k, problems=[], failing_inputs=[])
+            r2 = cl.StreamResult()
+            streams(c2, r2)
+            found += [{"kind": "spec", **sf} for sf in r2.specfail[:6]] + list(c2.get("failing_inputs", []))[:6]
+            if found:
+                break
+    finally:
+        if old is None:
+            os.environ.pop("VERIF_C18_N24", None)
+        else:
+            os.environ["VERIF_C18_N24"] = old
+    return found
+
+
 PROP = {
-    "streams": streams, "translators": _pc.translators_prng,
+    "streams": streams, "search": search, "translators": _pc.translators_prng,
     "rule": "first-request family (start of the process's history): 32 (thorough 160) fresh unsanitised processes, T in {2,3,4,6,8,12,16} threads whose FIRST requests start together / linearly staggered / one leader then the rest / at random delays / unsynchronised, against a harness randombytes that is SLOW (waits 0-5 ms, then delivers the 32 key bytes in pieces of 32/16/8/4/1 bytes 60-600 us apart; staggers chosen relative to that duration; some immediate), 1-5 requests per thread of lengths 8,9,64,100,1000,16,3,65,128,2,63,32,1,256,511; EVERY returned buffer is a driver line checked against the executable Salsa20 specification (Spec/Salsa20.lean) under the key randombytes delivered and the nonce identified; a buffer that is not is looked up under the all-zero key and the 31 partially written keys and reported with the key it matches; then the history (nonces 0..N-1 each once, one seeding). Then boundary bursts (position in the process's history): the main thread advances the generator with counted silent requests to N0 = k*2^b - d (b = 8, 16, 24 black box, really performed, up to 17 M requests per boundary; b = 32..56 and the wrap 2^64 white box by presetting the static nonce, when it exists), probes (must be nonce N0-1), then T = 4/8/16 threads are released so that their N = T*R requests straddle the carry; blocks identified among the reference keystreams of [N0-1-24, N0+N+24] and of the window shifted by +-2^b, +-2^(b-8); history must be N0-1..N0+N-1 each once; repeated per boundary (quick: 7 x 2^24 - measured single-burst detection of seeded change C18-2 0.45-0.78 - thorough 48). Then each run = one process: T in {2,3,4,8,16} (thorough 2..16) threads released together before ANY request, 200-300 (thorough 800) requests per thread of lengths 8,1,64,100,1000,3,16,65,128,2,63 from /repo's fastrandombytes (fixed key); every returned block identified among portable-C Salsa20 reference keystreams of nonces 0..N+15 (cross-checked against the assembly), short blocks by maximum matching; the Lean driver checks per run: nonces = {0..N-1} each once, per-thread increasing, one seeding, zero TSan reports; then one FastGaussianNoise object shared by threads calling getNoise while others sample uniform/ZO/hwt/bounded/gaussian polynomials; distinct = distinct runs",
     "trusted_base": _props.COMMON_TB + [
         "the interleaving model's assumption that every access to init / nonce and every write of key happens with the mutex held, and that the stream call reads key outside it, is no longer only an assumption: it is regenerated from the C++ text (Generated/PrngAst.lean: frb_accesses) and checked by the kernel on every run (Properties/C13Ast.lean: init_nonce_guarded, key_writes_guarded, unguarded_is_stream_key_read, accesses_match_step_model); " + _pc.PRNG_AST_TB,
